@@ -37,6 +37,7 @@ if not res['confirmed']:
     sys.exit(1)
 # run the checks against it: on /repo itself (apply, check, revert), or — SEED_WORKTREE=1, used while
 # other work needs /repo unchanged — on a scratch worktree through YABGP_REPO
+os.environ['VERIF_EVIDENCE_DIR'] = os.path.join(os.path.dirname(os.path.dirname(os.path.abspath(__file__))), 'build', 'seed_evidence')
 WT = os.environ.get('SEED_WORKTREE') == '1'
 envp = ''
 if WT:
